@@ -5,7 +5,7 @@ BHi <- BHiB
 MaxT = 8
 MaxReq = 2
 MaxLookups = 4
-MaxDur = 1
+MaxDur = 4
 Mutant = 0
 INIT Init
 NEXT Next
